@@ -64,6 +64,8 @@ class Piece:
     def add(self, tr, pitch, start, dur, vel):
         self.tracks[tr].append(NoteV(tr, pitch, start, start + dur, vel))
 
+    late_cap = False        # add the end marker through add_absolute_message after both views exist
+
     def sequences(self):
         seqs = []
         for ti, notes in enumerate(self.tracks):
@@ -74,9 +76,13 @@ class Piece:
             for n in notes:
                 msgs.append(on(0, n.pitch, n.vel, time=n.start))
                 msgs.append(off(0, n.pitch, time=n.end))
-            if self.cap is not None:
+            if self.cap is not None and not self.late_cap:
                 msgs.append(Message(message_type=INTERNAL, channel=0, time=self.cap))
-            seqs.append(abs_sequence(msgs) if msgs else Sequence())
+            sq = abs_sequence(msgs) if msgs else Sequence()
+            if self.cap is not None and self.late_cap:
+                sq.rel
+                sq.add_absolute_message(Message(message_type=INTERNAL, channel=0, time=self.cap))
+            seqs.append(sq)
         return seqs
 
 
@@ -181,10 +187,11 @@ def q_onset(fl, bins, plan, kmax):
                  desc=f"one note anywhere in the first bars, signature plan {plan}")
 
 
-def q_cap(fl, bins, plan, kmax):
+def q_cap(fl, bins, plan, kmax, late_cap=False):
     def fn(ctx):
         tok = mk(fl, bins, 2)
         p = Piece(2, plan)
+        p.late_cap = late_cap
         k = ctx.int("k", 0, 20)
         p.add(0, 60, 2 * k, 12, ctx.int("v1", 1, 127))
         p.add(1, 61, 2 * k + 6, 6, 90)
@@ -193,7 +200,7 @@ def q_cap(fl, bins, plan, kmax):
         # a genuine trailing rest: the cap lies after every note end (a cap on the last note-off is no rest at all)
         ctx.assume(p.cap > 2 * k + 12)
         return roundtrip(ctx, tok, p, check_duration=True)
-    return Query(f"cap/{plan}/f{''.join(str(int(x)) for x in fl)}-b{bins}/c{kmax}", fn, CL + ["duration_rounded_up_to_bar_end"],
+    return Query(f"cap/{plan}/f{''.join(str(int(x)) for x in fl)}-b{bins}/c{kmax}{'/late' if late_cap else ''}", fn, CL + ["duration_rounded_up_to_bar_end"],
                  desc="trailing rest up to a symbolic cap: total duration rounded up to the bar end")
 
 
@@ -255,6 +262,7 @@ def queries(tier, seed):
         qs.append(q_onset(FLAGS[15], 2, "24-84", 60))       # both ends of the time-signature range (2 and 16 eighths)
         qs.append(q_cap(FLAGS[0], 1, "none", 120))
         qs.append(q_cap(FLAGS[15], 2, "34-58", 100))
+        qs.append(q_cap(FLAGS[0], 1, "none", 120, late_cap=True))
         qs.append(q_sim(FLAGS[0], 1))
         qs.append(q_sim(FLAGS[15], 2))
         qs.append(q_late_signature(FLAGS[0], 1))
